@@ -98,6 +98,48 @@ func (w *budgetWriter) Write(p []byte) (int, error) {
 	return len(p), nil
 }
 
+// c08DataErrReader returns its last bytes TOGETHER with the transport's error (io.Reader allows n > 0 with
+// err != nil), and the error alone on every later call.
+type c08DataErrReader struct {
+	b   []byte
+	err error
+	max int
+}
+
+func (s *c08DataErrReader) Read(p []byte) (int, error) {
+	if len(s.b) == 0 {
+		return 0, s.err
+	}
+	n := len(p)
+	if s.max > 0 && n > s.max {
+		n = s.max
+	}
+	if n > len(s.b) {
+		n = len(s.b)
+	}
+	copy(p, s.b[:n])
+	s.b = s.b[n:]
+	if len(s.b) == 0 {
+		return n, s.err
+	}
+	return n, nil
+}
+
+// c08Reader: transport delivering data then reporting end (nil = io.EOF); modes 0..3 = h.SegReader's, 4/5 = data+error.
+func c08Reader(data []byte, end error, r *h.Rand) (io.Reader, int) {
+	mode := r.Intn(6)
+	if end == nil {
+		end = io.EOF
+	}
+	switch mode {
+	case 4:
+		return &c08DataErrReader{b: append([]byte(nil), data...), err: end}, mode
+	case 5:
+		return &c08DataErrReader{b: append([]byte(nil), data...), err: end, max: 1 + r.Intn(9)}, mode
+	}
+	return &h.SegReader{Data: data, R: r.Fork(), Mode: mode, End: end}, mode
+}
+
 func c08Ks(ks []int) string {
 	if ks == nil {
 		return "all"
@@ -501,8 +543,7 @@ func c08RtmpReadSweeps(c *h.Ctx, ms []rmsg, wire []byte, cum []int, ks []int, la
 	for _, f := range c08Faults(c) {
 		model := strings.Split(c.O.Call("c08.rtmp.cuts", strconv.Itoa(f.t), "128", h.Hex(wire), c08Ks(ks)), ",")
 		c08Each(len(wire), ks, func(i, k int) {
-			mode := r.Intn(4)
-			rd := &h.SegReader{Data: wire[:k], R: r.Fork(), Mode: mode, End: f.err}
+			rd, mode := c08Reader(wire[:k], f.err, r)
 			p := rtmp.NewProtocol(&h.RW{Reader: rd, Writer: io.Discard})
 			got, err, status := c08ReadAll(p, len(ms)+2)
 			c08Runs["rtmp read offsets ("+f.name+")"]++
@@ -516,7 +557,7 @@ func c08RtmpReadSweeps(c *h.Ctx, ms []rmsg, wire []byte, cum []int, ks []int, la
 		// ExpectMessage / ExpectPacket add one layer and keep the cause: offsets inside the first message
 		for k := 0; k < cum[0] && k < 40; k++ {
 			for variant := 0; variant < 2; variant++ {
-				rd := &h.SegReader{Data: wire[:k], R: r.Fork(), Mode: r.Intn(4), End: f.err}
+				rd, _ := c08Reader(wire[:k], f.err, r)
 				p := rtmp.NewProtocol(&h.RW{Reader: rd, Writer: io.Discard})
 				var err error
 				st := h.Safe(func() string {
@@ -742,7 +783,10 @@ func c08Handshake(c *h.Ctx) {
 		}
 		model := strings.Split(c.O.Call("c08.hs.cuts", strconv.Itoa(f.t), "p:3073:1", c08Ks(ks)), ",")
 		c08Each(len(data), ks, func(i, k int) {
-			rd := &h.SegReader{Data: data[:k], R: r.Fork(), Mode: 1 + r.Intn(3), End: f.err}
+			rd, _ := c08Reader(data[:k], f.err, r)
+			if sr, ok := rd.(*h.SegReader); ok && sr.Mode == 0 && k > 400 {
+				sr.Mode = 2 // 1-byte reads of 3 KB at every offset only for the short prefixes
+			}
 			var err error
 			done := 0
 			var parts [3][]byte
@@ -960,8 +1004,7 @@ func c08Flv(c *h.Ctx) {
 		for _, f := range c08Faults(c) {
 			model := strings.Split(c.O.Call("c08.flv.cuts", strconv.Itoa(f.t), h.Hex(file), "all"), ",")
 			for k := 0; k <= len(file); k++ {
-				mode := r.Intn(4)
-				rd := &h.SegReader{Data: file[:k], R: r.Fork(), Mode: mode, End: f.err}
+				rd, mode := c08Reader(file[:k], f.err, r)
 				hdr, got, err, status := c08FlvDemux(rd)
 				c08Runs["flv read offsets ("+f.name+")"]++
 				in := fmt.Sprintf("flv %s at read offset %d of %d (seg mode %d): mux %s %s %s", f.name, k, len(file), mode, b01(hv), b01(ha), ts)
